@@ -33,6 +33,7 @@ const (
 	probeCallbackAbort
 	probePoolRenewed
 	probeSubtreeKept
+	probeC11OpOnPart
 )
 
 var probeNames = map[int]string{
@@ -43,6 +44,7 @@ var probeNames = map[int]string{
 	probeErrCallback: "error_callback_fired", probeVisitorAbort: "visitor_abort_fired", probeC11OpFault: "operation_aborted_by_writer_fault_or_visitor_abort", probeCallbackAbort: "parse_aborted_by_panicking_error_callback",
 	probePoolRenewed: "pool_dropped_and_replaced_while_objects_kept",
 	probeSubtreeKept: "root_dropped_one_statement_kept",
+	probeC11OpOnPart: "operation_applied_to_a_part_of_the_tree",
 }
 
 var (
